@@ -212,6 +212,27 @@ class BitEval:
                     if c_ is not None and c_ > 0 and c_ & (c_ - 1) == 0:
                         n = c_.bit_length() - 1
                         return ([0] * n + x_)[:w]
+            if op in ('Ge', 'Lt', 'Gt', 'Le'):
+                # unsigned ordering against the middle of the range tests the top bit: x >= 2^(w-1), x > 2^(w-1)-1 (and negations)
+                ca, cb = const_val(e[2]), const_val(e[3])
+                x_, c_, o_ = (a, cb, op) if cb is not None and ca is None else ((b, ca, {'Ge': 'Le', 'Le': 'Ge', 'Gt': 'Lt', 'Lt': 'Gt'}[op]) if ca is not None and cb is None else (None, None, None))
+                if x_ is not None:
+                    wx = len(self.bits(e[2] if x_ is a else e[3]) or [])
+                    top = x_[wx - 1] if wx else TOP
+                    if wx and isinstance(top, tuple) and not any(t_ is TOP for t_ in x_[:wx]):
+                        if (o_, c_) in (('Ge', 1 << (wx - 1)), ('Gt', (1 << (wx - 1)) - 1)):
+                            return [top]
+                        if (o_, c_) in (('Lt', 1 << (wx - 1)), ('Le', (1 << (wx - 1)) - 1)):
+                            return [('not', top)]
+                return [TOP]
+            if op in ('Div', 'Rem'):
+                # unsigned division / remainder by a constant power of two: a right shift / a mask
+                c_ = const_val(e[3])
+                if c_ is not None and c_ > 0 and c_ & (c_ - 1) == 0:
+                    n = c_.bit_length() - 1
+                    if op == 'Div':
+                        return (a[n:] + [0] * n)[:w]
+                    return a[:n] + [0] * (w - n)
             if op in ('Add', 'AddUnchecked', 'AddWithOverflow') and all(x == 0 or y == 0 for x, y in zip(a, b)):
                 # the operands occupy disjoint bit positions: no carry can arise, the sum is their union
                 return [_or(x, y) for x, y in zip(a, b)]
@@ -252,6 +273,21 @@ class BitEval:
                 for b_ in by:
                     out += b_
                 return out
+            m = re.search(r'core::num::<impl (u8|u16|u32|u64|u128|usize)>::(wrapping_mul|wrapping_shl|wrapping_shr|unchecked_shl|unchecked_shr)$', name)
+            if m and len(e[2]) == 2:
+                w = INT_BITS[m.group(1)]
+                v = self.bits(e[2][0])
+                v = _fit(v, w) if v is not None else tops(w)
+                c_ = const_val(e[2][1])
+                if c_ is None:
+                    return tops(w)
+                if m.group(2) == 'wrapping_mul':
+                    if c_ > 0 and c_ & (c_ - 1) == 0:
+                        n = c_.bit_length() - 1
+                        return ([0] * n + v)[:w]
+                    return tops(w)
+                n = c_ % w
+                return ([0] * n + v)[:w] if m.group(2).endswith('shl') else v[n:] + [0] * n
             m = re.search(r'core::num::<impl (u8|u16|u32|u64|u128|usize)>::(swap_bytes|to_be|to_le|from_be|from_le)$', name)
             if m:
                 w = INT_BITS[m.group(1)]
